@@ -140,7 +140,8 @@ PROPS = {
               partial="FST (vellum) and roaring blobs are decoded by the real libraries and handed to the Lean decoder as an oracle table; snappy, varints, chunk tables, stored/doc-value/thesaurus/vector records and the footer+CRC are decoded natively in Lean"),
     "C14": _p([{"regress": "d12_eligible_excluded.script", "vectors": True}, {"gen": "C14", "vectors": True}], ["ZapProofs.Props.C14", "ZapProofs.Props.Codec"],
               ["Zap.C14.C14_sound", "Zap.C14.C14_no_excluded", "Zap.C14.C14_only_eligible", "Zap.C14.C14_at_most_k",
-               "Zap.C14.C14_topk_exact", "Zap.C14.C14_topk_exact_filtered", "Zap.C14.C14_wrong_dim_empty", "Zap.C14.C14_no_vectors_empty",
+               "Zap.C14.C14_topk_exact", "Zap.C14.C14_topk_exact_filtered", "Zap.C14.C14_filtered_no_excluded", "Zap.C14.C14_ivf_selector",
+               "Zap.C14.C14_D12_counterexample", "Zap.C14.C14_wrong_dim_empty", "Zap.C14.C14_no_vectors_empty",
                "Zap.C14.C14_contract_satisfiable", "Zap.C14.C14_code_order", "Zap.Props.Codec.vectorCode_order"],
               VEC_FILES, replay_vectors=True,
               partial="the vector engine is a pure-Go stand-in (fakefaiss) with a stated contract; FAISS itself and the clustered (IVF) class beyond soundness are not verified"),
